@@ -11,6 +11,8 @@ import (
 	"fmt"
 	"net"
 	"net/url"
+	"strconv"
+	"strings"
 
 	"github.com/saucelabs/forwarder/log"
 )
@@ -89,11 +91,16 @@ func (m *CredentialsMatcher) MatchURL(u *url.URL) *url.Userinfo {
 
 	hostport := u.Host
 	if u.Port() == "" {
+		// (an authority may end in a colon with no port after it)
+		host := u.Hostname()
+		if strings.Contains(host, ":") {
+			host = "[" + host + "]"
+		}
 		switch u.Scheme {
 		case "http":
-			hostport = fmt.Sprintf("%s:%d", u.Host, httpPort)
+			hostport = fmt.Sprintf("%s:%d", host, httpPort)
 		case "https":
-			hostport = fmt.Sprintf("%s:%d", u.Host, httpsPort)
+			hostport = fmt.Sprintf("%s:%d", host, httpsPort)
 		default:
 			m.log.Error("cannot to determine port", "url", u.Redacted())
 			return nil
@@ -110,17 +117,22 @@ func (m *CredentialsMatcher) Match(hostport string) *url.Userinfo {
 		return nil
 	}
 
-	hostport = lowerASCII(hostport)
+	host, port, err := net.SplitHostPort(lowerASCII(hostport))
+	if err != nil {
+		m.log.Info("invalid hostport", "hostport", hostport)
+		return nil
+	}
+	// The entries are looked up under the names the connection is made to: the port as a
+	// number ("080" is port 80), the host without the dot of the rooted form.
+	if n, err := strconv.ParseUint(port, 10, 16); err == nil {
+		port = strconv.FormatUint(n, 10)
+	}
+	host = strings.TrimSuffix(host, ".")
+	hostport = net.JoinHostPort(host, port)
 
 	if u, ok := m.hostport[hostport]; ok {
 		m.log.Debug(hostport)
 		return u
-	}
-
-	host, port, err := net.SplitHostPort(hostport)
-	if err != nil {
-		m.log.Info("invalid hostport", "hostport", hostport)
-		return nil
 	}
 
 	// Host wildcard - check the port only.
